@@ -8,6 +8,7 @@ package main
 //        reg S R W M|P IDLE WI SIZE    RegisterPattern (M = in-memory, P = persistent)
 //        dereg S R W
 //        get S R W                     300 × GetBySwampName
+//        regtorn S R W M|P IDLE WI SIZE  the same registration while file writes are cut short after 1 byte (RLIMIT_FSIZE)
 //        restart                       settings.New on the same root; later ops use the new object
 // reply: case N | ok | res <sorted distinct results>   result = S/R/W|M|idle|wi|size
 //
@@ -22,9 +23,11 @@ import (
 	"log/slog"
 	"math/rand"
 	"os"
+	"os/signal"
 	"sort"
 	"strconv"
 	"strings"
+	"syscall"
 	"time"
 
 	"github.com/hydraide/hydraide/app/core/settings"
@@ -81,7 +84,17 @@ func c21Gen(rng *rand.Rand, tier string, w *bufio.Writer) {
 	fmt.Fprintln(w, "get a x p")
 	fmt.Fprintln(w, "dereg a x p")
 	fmt.Fprintln(w, "get a x p")
-	for c := 3; c < cases+3; c++ {
+	// corpus: two patterns are persisted, the save of a third one is torn, restart
+	fmt.Fprintln(w, "case 3")
+	fmt.Fprintln(w, "reg a x p M 4 0 0")
+	fmt.Fprintln(w, "reg a * q P 3 2 4096")
+	fmt.Fprintln(w, "regtorn b y p P 2 1 8192")
+	fmt.Fprintln(w, "get b y p")
+	fmt.Fprintln(w, "restart")
+	fmt.Fprintln(w, "get a x p")
+	fmt.Fprintln(w, "get a y q")
+	fmt.Fprintln(w, "get b y p")
+	for c := 4; c < cases+4; c++ {
 		fmt.Fprintf(w, "case %d\n", c)
 		keys := []string{}
 		has := map[string]bool{}
@@ -123,6 +136,10 @@ func c21Gen(rng *rand.Rand, tier string, w *bufio.Writer) {
 					fmt.Fprintf(w, "dereg %s\n", name())
 				}
 			case x < 11:
+				if rng.Intn(3) == 0 {
+					k := pickKey()
+					fmt.Fprintf(w, "regtorn %s P %d 1 4096\n", k, 1+rng.Intn(4))
+				}
 				fmt.Fprintln(w, "restart")
 			default:
 				fmt.Fprintf(w, "get %s\n", name())
@@ -202,6 +219,30 @@ func c21Run(in *bufio.Scanner, w *bufio.Writer) {
 				} else {
 					st.RegisterPattern(p, false, idle, &settings.FileSystemSettings{WriteIntervalSec: wi, MaxFileSizeByte: size})
 				}
+				fmt.Fprintln(w, "ok")
+			case f[0] == "regtorn" && len(f) == 8:
+				// the same registration, but the process may write at most ONE byte to any file while it runs
+				// (RLIMIT_FSIZE, SIGXFSZ ignored): the save of settings.json fails part-way, as on a crash or a full disk
+				idle, e1 := strconv.ParseInt(f[5], 10, 64)
+				wi, e2 := strconv.ParseInt(f[6], 10, 64)
+				size, e3 := strconv.ParseInt(f[7], 10, 64)
+				if e1 != nil || e2 != nil || e3 != nil || (f[4] != "M" && f[4] != "P") {
+					fmt.Fprintln(w, "bad-op")
+					return
+				}
+				p := name.Load(f[1] + "/" + f[2] + "/" + f[3])
+				signal.Ignore(syscall.SIGXFSZ)
+				var old syscall.Rlimit
+				_ = syscall.Getrlimit(syscall.RLIMIT_FSIZE, &old)
+				_ = syscall.Setrlimit(syscall.RLIMIT_FSIZE, &syscall.Rlimit{Cur: 1, Max: old.Max})
+				func() {
+					defer func() { _ = syscall.Setrlimit(syscall.RLIMIT_FSIZE, &old) }()
+					if f[4] == "M" {
+						st.RegisterPattern(p, true, idle, nil)
+					} else {
+						st.RegisterPattern(p, false, idle, &settings.FileSystemSettings{WriteIntervalSec: wi, MaxFileSizeByte: size})
+					}
+				}()
 				fmt.Fprintln(w, "ok")
 			case f[0] == "dereg" && len(f) == 4:
 				st.DeregisterPattern(name.Load(f[1] + "/" + f[2] + "/" + f[3]))
